@@ -405,6 +405,23 @@ int main(int argc, char** argv) {
         HC_TRY(churn_ints(3000));
         if (hc_exc[0]) { static char later[96]; snprintf(later, sizeof later, "later:%s", hc_exc); hc_exc = later; } else hc_exc = saved;
       }
+      else if (!strncmp(what, "stack_", 6) && isT) {
+        /* the Tuple as a STACK object (what tuple(...) and $(Tuple, ...) make: the header says so): every operation that would
+           have to reallocate its items is refused with ValueError - and has not touched the items when it says so */
+        var was = header(c)->alloc; header(c)->alloc = (var)AllocStack;
+        const char* w2 = what + 6;
+        if      (!strcmp(w2, "push"))   HC_TRY(push(c, e1));
+        else if (!strcmp(w2, "pushat")) HC_TRY(push_at(c, e1, $I(0)));
+        else if (!strcmp(w2, "pop"))    HC_TRY(pop(c));
+        else if (!strcmp(w2, "popat"))  HC_TRY(pop_at(c, $I(0)));
+        else if (!strcmp(w2, "popatn")) HC_TRY(pop_at(c, $I(-1)));
+        else if (!strcmp(w2, "rem"))    HC_TRY(rem(c, get(c, $I(L / 2))));
+        else if (!strcmp(w2, "resize")) HC_TRY(resize(c, (size_t)(L - 1)));
+        else if (!strcmp(w2, "concat")) HC_TRY(concat(c, tuple(e1)));
+        else if (!strcmp(w2, "assign")) HC_TRY(assign(c, tuple(e1)));
+        else { fprintf(stderr, "unknown bad op %s\n", what); return 9; }
+        header(c)->alloc = was;
+      }
       else { fprintf(stderr, "unknown bad op %s\n", what); return 9; }
       if (!isT) vt_free(e1);
       del_raw(alien);
